@@ -3415,16 +3415,17 @@ tar_atol_base_n(const char *p, size_t char_cnt, int base)
 	}
 
 	l = 0;
-	if (char_cnt != 0) {
+	/* Look at a character only while it belongs to the field. */
+	while (char_cnt != 0) {
 		digit = *p - '0';
-		while (digit >= 0 && digit < base  && char_cnt != 0) {
-			if (l>limit || (l == limit && digit >= last_digit_limit)) {
-				return maxval; /* Truncate on overflow. */
-			}
-			l = (l * base) + digit;
-			digit = *++p - '0';
-			char_cnt--;
+		if (digit < 0 || digit >= base)
+			break;
+		if (l>limit || (l == limit && digit >= last_digit_limit)) {
+			return maxval; /* Truncate on overflow. */
 		}
+		l = (l * base) + digit;
+		p++;
+		char_cnt--;
 	}
 	return (sign < 0) ? -l : l;
 }
